@@ -159,7 +159,7 @@ class Formula:
         sub = Formula(g, self.flags, self.branch, self.S)
         sub.depth = self.depth + 1
         for p_, a in zip(g.params, self.f.args(n)):
-            if (p_.get("ty") or "") == "bool":
+            if (p_.get("ty") or "") in ("bool", "const bool"):
                 sub.cenv[p_["id"]] = self.cond(a)
             else:
                 sub.env[p_["id"]] = self.expr(a)
@@ -445,6 +445,7 @@ def _d3(chk, fb):
             val["strictUpperBound"] = None
         env = {}
         reached = []
+        unsure = []
 
         def cond(nn):
             sn = strip(nn)
@@ -489,7 +490,7 @@ def _d3(chk, fb):
                     walk_stmt(c)
             elif k == "DeclStmt":
                 for d in nn["decls"]:
-                    if d.get("init") is not None and d["ty"] == "bool":
+                    if d.get("init") is not None and d["ty"] in ("bool", "const bool"):
                         env[d["id"]] = cond(d["init"])
                     if d.get("init") is not None:
                         for x in walk(d["init"]):
@@ -503,7 +504,10 @@ def _d3(chk, fb):
                     if "else" in nn:
                         walk_stmt(f.nodes[nn["else"]])
                 elif c == "data":
-                    pass       # 'correctedValue' nudges and verbose messages: no transform is created there
+                    # 'correctedValue' nudges and verbose messages: no transform is created there; a test this walk cannot
+                    # evaluate that does guard a transform makes the configuration undecided
+                    if any(x["k"] == "CXXNewExpr" and "TransformedParameter" in x.get("newty", "") for x in walk(nn)):
+                        unsure.append(render(f.nodes[nn["cond"]])[:60])
                 else:
                     raise AnalysisBroken("D3: condition '%s' undetermined for configuration %s/%s" % (render(f.nodes[nn["cond"]])[:60], lo, up))
             elif k == "ForStmt":
@@ -515,6 +519,9 @@ def _d3(chk, fb):
         walk_stmt(f.body)
         n += 1
         tag = "%s-lower/%s-upper" % (lo, up)
+        if unsure:
+            chk.unknown("D3", f.key, "one-transform[%s]" % tag, f.loc(), "a test guarding a transform is not one this walk evaluates: '%s'" % unsure[0])
+            continue
         if len(reached) != 1:
             chk.refuted("D3", f.key, "one-transform[%s]" % tag, f.loc(), "configuration %s creates %d transformed parameters (expected exactly one)" % (tag, len(reached)))
             continue
@@ -558,14 +565,30 @@ def _d4(chk, fb):
     if sets:
         c = sets[0]
         idx = render(f.obj(c))[len("functionParameters_["):-1]
-        src = render(f.args(c)[0], sub)
-        lp = f.enclosing(c, ("ForStmt",))
-        whole = lp is not None and render(f.nodes[lp["cond"]]) in ("(%s < this.getNumberOfParameters())" % idx, "(%s < getNumberOfParameters())" % idx, "(%s < functionParameters_.size())" % idx)
+        src = e1.inline_render(fb, f, f.args(c)[0], sub)
+        lp = f.enclosing(c, ("ForStmt", "WhileStmt", "CXXForRangeStmt", "DoStmt"))
+        bounds = ("this.getNumberOfParameters()", "getNumberOfParameters()", "functionParameters_.size()")
+        whole = None          # True: every index; False: recognisably not every index; None: not a form this rule reads
+        if lp is not None and lp["k"] in ("ForStmt", "WhileStmt") and lp.get("cond") is not None:
+            ct = render(f.nodes[lp["cond"]], sub)
+            start = None
+            for dn in f.all_nodes():
+                if dn["k"] == "DeclStmt":
+                    for d in dn["decls"]:
+                        if d["name"] == idx and d.get("init") is not None:
+                            start = render(d["init"])
+            if ct in tuple("(%s < %s)" % (idx, b_) for b_ in bounds) + tuple("(%s != %s)" % (idx, b_) for b_ in bounds):
+                whole = True if start in ("0", "0UL", "0U") else (False if start is not None and start.isdigit() else None)
+            elif any(ct == "(%s < (%s - %d))" % (idx, b_, k_) or ct == "((%s + %d) < %s)" % (idx, k_, b_) for b_ in bounds for k_ in (1, 2)):
+                whole = False
         ok_src = "getOriginalValue()" in src and "getParameter_(%s)" % idx in src
+        bad_src = not ok_src and "getParameter_(" in src and ("getValue()" in src or "getOriginalValue()" in src)
         if whole and ok_src:
             chk.proved("D4", f.key, "sync-all-coordinates", f.loc(c), "functionParameters_[%s].setValue(%s) for every %s" % (idx, src[:60], idx))
+        elif whole is False or bad_src:
+            chk.refuted("D4", f.key, "sync-all-coordinates", f.loc(c), "fireParameterChanged does not copy getOriginalValue() of parameter i into functionParameters_[i] for every i (loop: %s, source: %s)" % (render(f.nodes[lp["cond"]]) if lp is not None and lp.get("cond") is not None else "none", src[:60]))
         else:
-            chk.refuted("D4", f.key, "sync-all-coordinates", f.loc(c), "fireParameterChanged does not copy getOriginalValue() of parameter i into functionParameters_[i] for every i (loop: %s, source: %s)" % (render(f.nodes[lp["cond"]]) if lp else "none", src[:60]))
+            chk.unknown("D4", f.key, "sync-all-coordinates", f.loc(c), "the loop or the copied value is not in a form this rule reads (loop: %s, source: %s)" % (render(f.nodes[lp["cond"]])[:50] if lp is not None and lp.get("cond") is not None else "none", src[:60]))
     else:
         chk.refuted("D4", f.key, "sync-all-coordinates", f.loc(), "fireParameterChanged no longer updates functionParameters_")
     g = fb.q1(W + "::setParameters")
